@@ -16,12 +16,15 @@ for d in sorted(os.listdir(V+'/seeded')):
     extra=json.load(open(os.path.join(V,'seeded',d,'meta.json'))).get('also_check',[])
     row={}
     for pr in [prop]+extra:
+        tier=None
+        if ':' in pr:       # "C01:thorough": the check of another property, in the named tier
+            pr,tier=pr.split(':')
         if pr not in checks:
             row[pr]='no-check'; continue
         if subprocess.run(['git','-C','/repo','apply','--check',p]).returncode: row[pr]='patch-does-not-apply'; continue
         subprocess.run(['git','-C','/repo','apply',p],check=True)
         try:
-            r=subprocess.run([V+'/vcheck',pr,'--no-evidence'],capture_output=True,text=True,cwd=V)
+            r=subprocess.run([V+'/vcheck',pr,'--no-evidence']+(['--tier',tier] if tier else []),capture_output=True,text=True,cwd=V)
         finally:
             subprocess.run(['git','-C','/repo','checkout','--','.'],check=True)
         viol=[l for l in r.stdout.splitlines() if l.startswith('  rule=')]
